@@ -1,3 +1,4 @@
+import Varpulis.Generated.ParserLimits
 /-!
 # M-TEXT, part 1 — text primitives and the declaration-loop expander (`expand.rs`)
 
@@ -146,8 +147,9 @@ def fmtInt (k : Int) : Text := if k < 0 then '-' :: fmtNat k.natAbs else fmtNat 
 
 /-! ## `expand.rs` -/
 
-def MAX_LOOP_ITERATIONS : Int := 10000
-def MAX_EXPANSION_PASSES : Nat := 10
+/-- the limits are regenerated from `expand.rs` on every check (`tools/extract_parserlimits.py`) -/
+def MAX_LOOP_ITERATIONS : Int := Generated.ParserLimits.MAX_LOOP_ITERATIONS
+def MAX_EXPANSION_PASSES : Nat := Generated.ParserLimits.MAX_EXPANSION_PASSES
 
 /-- `line.len() - line.trim_start().len()` -/
 def indentOf (l : Line) : Nat := byteLen l - byteLen (trimStart l)
@@ -225,7 +227,7 @@ def copies (var : Text) (s e : Int) (body : List Line) : List Line :=
 def rangeErr (s e : Int) : String := s!"range {s}..{e}"
 
 /-- `MAX_EXPANDED_LINES`: lines all loop expansions of one source may produce together (after the fix) -/
-def MAX_EXPANDED_LINES : Nat := 1000000
+def MAX_EXPANDED_LINES : Nat := Generated.ParserLimits.MAX_EXPANDED_LINES
 
 /-- `((end - start).max(0) as usize).saturating_mul(body_end - body_start)`; the saturation at
 `usize::MAX` is immaterial because the product is only compared with a budget ≤ `MAX_EXPANDED_LINES` -/
@@ -405,5 +407,141 @@ end
 def wellFormed (unit : Nat) (bs : List Block) : Bool :=
   decide (0 < unit) && synList bs && decide (depthList bs < MAX_EXPANSION_PASSES) &&
     decide (cost bs ≤ MAX_EXPANDED_LINES)
+
+/-! ## extended loop programs: a range bound may be the placeholder of an enclosing loop
+
+"Triangular" nests such as `for r in 1..3:` / `for c in 0..{r}:`. The check judges the real expander
+against this specification as well; the theorem `expand_eq_hand_expansion` covers the programs all of
+whose bounds are literals (`Block`, embedded by `Block.toX`). -/
+
+inductive Bound where
+  | lit (k : Int)
+  | ph (v : Text)
+  deriving DecidableEq
+
+/-- `e` is the exclusive end when it is a literal; with `incl` and a placeholder end the header reads
+`..={v}` and the exclusive end is the value + 1 -/
+inductive XBlock where
+  | decl (first : Text) (conts : List Text)
+  | loop (var : Text) (s e : Bound) (incl : Bool) (body : List XBlock)
+
+def Bound.text : Bound → Text
+  | .lit k => fmtInt k
+  | .ph v => pattern v
+
+def xheaderText (var : Text) (s e : Bound) (incl : Bool) : Text :=
+  "for ".toList ++ var ++ " in ".toList ++ s.text ++
+    (if incl then "..=".toList ++ (match e with | .lit k => fmtInt (k - 1) | .ph v => pattern v)
+     else "..".toList ++ e.text) ++ [':']
+
+mutual
+def xrender (unit depth : Nat) : XBlock → List Line
+  | .decl f cs => (f :: cs).map (spaces (unit * depth) ++ ·)
+  | .loop v s e incl body => (spaces (unit * depth) ++ xheaderText v s e incl) :: xrenderList unit (depth + 1) body
+def xrenderList (unit depth : Nat) : List XBlock → List Line
+  | [] => []
+  | b :: bs => xrender unit depth b ++ xrenderList unit depth bs
+end
+
+/-- textual substitution replaces the outermost loop's placeholder first: a placeholder bound takes
+the value of the outermost enclosing loop of that name -/
+def envVal (env : List (Text × Int)) (v : Text) : Int := ((env.find? fun p => p.1 == v).map (·.2)).getD 0
+
+def Bound.val (env : List (Text × Int)) : Bound → Int
+  | .lit k => k
+  | .ph v => envVal env v
+
+/-- exclusive end of the range under `env` -/
+def xend (env : List (Text × Int)) (e : Bound) (incl : Bool) : Int :=
+  match e with
+  | .lit k => k
+  | .ph v => envVal env v + (if incl then 1 else 0)
+
+mutual
+/-- the copies written by hand (as `hand`), ranges evaluated under the enclosing loops' values -/
+def xhand (env : List (Text × Int)) : XBlock → List Line
+  | .decl f cs => (f :: cs).map (substEnv env)
+  | .loop v s e incl body => (intRange (s.val env) (xend env e incl)).flatMap fun k => xhandList (env ++ [(v, k)]) body
+def xhandList (env : List (Text × Int)) : List XBlock → List Line
+  | [] => []
+  | b :: bs => xhand env b ++ xhandList env bs
+end
+
+mutual
+def xdepth : XBlock → Nat
+  | .decl _ _ => 0
+  | .loop _ _ _ _ body => xdepthList body + 1
+def xdepthList : List XBlock → Nat
+  | [] => 0
+  | b :: bs => max (xdepth b) (xdepthList bs)
+end
+
+mutual
+def xlines : XBlock → Nat
+  | .decl _ cs => 1 + cs.length
+  | .loop _ _ _ _ body => 1 + xlinesList body
+def xlinesList : List XBlock → Nat
+  | [] => 0
+  | b :: bs => xlines b + xlinesList bs
+end
+
+def boundOk (env : List (Text × Int)) : Bound → Bool
+  | .lit k => inI64 k
+  | .ph v => varOk v && env.any fun p => p.1 == v
+
+mutual
+/-- the class the judge decides: declaration lines as in `syn`, identifier variables, every placeholder
+bound names an enclosing loop, every range (under the actual values) representable and at most
+`MAX_LOOP_ITERATIONS` long -/
+def xok (env : List (Text × Int)) : XBlock → Bool
+  | .decl f cs => headOk f && lineOk f && cs.all lineOk
+  | .loop v s e incl body =>
+    varOk v && boundOk env s && boundOk env e && inI64 (xend env e incl) && inI64 (xend env e incl - 1) &&
+      !tooLarge (s.val env) (xend env e incl) &&
+      (match intRange (s.val env) (xend env e incl) with
+       | [] => xokList (env ++ [(v, 0)]) body
+       | ks => ks.all fun k => xokList (env ++ [(v, k)]) body)
+def xokList (env : List (Text × Int)) : List XBlock → Bool
+  | [] => true
+  | b :: bs => xok env b && xokList env bs
+end
+
+mutual
+/-- lines all loop expansions produce together (as `costL`, under the actual values) -/
+def xcost (env : List (Text × Int)) : XBlock → Nat
+  | .decl _ _ => 0
+  | .loop v s e incl body =>
+    ((intRange (s.val env) (xend env e incl)).map fun k => xlinesList body + xcostList (env ++ [(v, k)]) body).sum
+def xcostList (env : List (Text × Int)) : List XBlock → Nat
+  | [] => 0
+  | b :: bs => xcost env b + xcostList env bs
+end
+
+/-- programs on which the check judges the real expander against `xhandList` -/
+def judgeable (unit : Nat) (bs : List XBlock) : Bool :=
+  decide (0 < unit) && xokList [] bs && decide (xdepthList bs < MAX_EXPANSION_PASSES) &&
+    decide (xcostList [] bs ≤ MAX_EXPANDED_LINES)
+
+mutual
+def Block.toX : Block → XBlock
+  | .decl f cs => .decl f cs
+  | .loop v s e incl body => .loop v (.lit s) (.lit e) incl (Block.toXList body)
+def Block.toXList : List Block → List XBlock
+  | [] => []
+  | b :: bs => b.toX :: Block.toXList bs
+end
+
+mutual
+/-- back to `Block` when every bound is a literal -/
+def XBlock.toBlock? : XBlock → Option Block
+  | .decl f cs => some (.decl f cs)
+  | .loop v (.lit s) (.lit e) incl body => (XBlock.toBlockList? body).map fun b => .loop v s e incl b
+  | .loop _ _ _ _ _ => none
+def XBlock.toBlockList? : List XBlock → Option (List Block)
+  | [] => some []
+  | b :: bs => match b.toBlock?, XBlock.toBlockList? bs with
+    | some b', some bs' => some (b' :: bs')
+    | _, _ => none
+end
 
 end Varpulis.Expand
